@@ -267,6 +267,7 @@ type tr struct {
 	aux      []string // auxiliary definitions (loops), emitted before the function
 	nLoops   int
 	inRange  int
+	curRhs   string // printed right-hand side of the assignment being translated (receiver as $)
 	binders  string   // the binders of the function (for auxiliary definitions)
 	bnames   []string // their names
 	loop     *loopCtx
@@ -1020,6 +1021,10 @@ func (t *tr) expr(e ast.Expr) (string, T) {
 		}
 		t.fail(x, "index on %s", bt.Kind)
 	case *ast.SliceExpr:
+		if isEmptyPrefixSlice(t.p, x) { // x[:0] never panics (also on a nil slice) and is empty
+			_, bt := t.expr(x.X)
+			return "[]", bt
+		}
 		if !t.mayPanic {
 			t.fail(x, "slice expression in a function classified as non-panicking")
 		}
@@ -1150,8 +1155,12 @@ func (t *tr) assignTo(lhs ast.Expr, val string) {
 		bt := t.g.goT(t.typeOf(l.X))
 		f := t.g.field(bt.Lean, l.Sel.Name)
 		if f == nil {
-			// a field that is modelled through its effect only (configured as "<expr>=")
-			if ext := t.findExt(calleeText(t.p, l, t.recvName) + "="); ext != nil {
+			// a field that is modelled through its effect only (configured as "<expr>=<rhs text>" or "<expr>=")
+			ext := t.findExt(calleeText(t.p, l, t.recvName) + "=" + t.curRhs)
+			if ext == nil {
+				ext = t.findExt(calleeText(t.p, l, t.recvName) + "=")
+			}
+			if ext != nil {
 				recv, _ := t.lookup(t.recvName)
 				if ext.Effect != "" {
 					t.emit("%s := %s", recv, subst(ext.Effect, recv, []string{val}))
@@ -1523,6 +1532,10 @@ func (t *tr) assign(x *ast.AssignStmt) {
 		}
 	}
 	for i, l := range x.Lhs {
+		t.curRhs = ""
+		if len(x.Lhs) == len(x.Rhs) {
+			t.curRhs = strings.ReplaceAll(t.p.text(x.Rhs[i]), t.recvName+".", "$.")
+		}
 		if x.Tok == token.DEFINE {
 			id := l.(*ast.Ident)
 			if id.Name == "_" {
@@ -1545,6 +1558,14 @@ func (t *tr) assign(x *ast.AssignStmt) {
 	}
 }
 
+func isEmptyPrefixSlice(p *pkgInfo, x *ast.SliceExpr) bool {
+	if x.Low != nil || x.High == nil || x.Slice3 {
+		return false
+	}
+	tv, ok := p.info.Types[x.High]
+	return ok && tv.Value != nil && tv.Value.ExactString() == "0"
+}
+
 // ---------------------------------------------------------------------------------------------------
 // pre-passes
 
@@ -1559,7 +1580,9 @@ func mayPanicBody(p *pkgInfo, g *gen, spec *FnSpec, fd *ast.FuncDecl, recvName s
 				}
 			}
 		case *ast.SliceExpr:
-			res = true
+			if !isEmptyPrefixSlice(p, x) {
+				res = true
+			}
 		case *ast.CallExpr:
 			if id, ok := x.Fun.(*ast.Ident); ok && id.Name == "panic" {
 				res = true
